@@ -546,6 +546,7 @@ type Lemma struct {
 	E    Expr
 	Uses []string
 	Floats FloatMode
+	BV     bool
 }
 
 type ContractFile struct {
@@ -660,6 +661,8 @@ func (cf *ContractFile) parse(src, file string) error {
 					curLemma.Uses = append(curLemma.Uses, part)
 				}
 			}
+		case kw == "mode" && curLemma != nil:
+			curLemma.BV = strings.TrimSpace(rest) == "bv"
 		case kw == "floats" && curLemma != nil:
 			fm, err := parseFloatMode(rest)
 			if err != nil {
